@@ -151,6 +151,7 @@ func storeOp(c *Ctx, op string, a map[string]string) {
 			line += " " + k + "=" + a[k]
 		}
 	}
+	c.Begin(line)
 	obs := func() (o string) {
 		defer func() {
 			if p := recover(); p != nil {
